@@ -262,6 +262,33 @@ func (l *Lab) Sync() error {
 	}
 }
 
+// RenterUTXOs returns every unspent output the renter wallet's store holds,
+// mature or not, with the tip its proofs are valid for.
+func (l *Lab) RenterUTXOs() (types.ChainIndex, []types.SiacoinElement) {
+	tip, els, _ := l.renterStore.UnspentSiacoinElements()
+	return tip, els
+}
+
+// HostSpendable returns the ids of the outputs the host wallet could spend
+// right now (confirmed, mature, neither reserved nor spent in the pool).
+func (l *Lab) HostSpendable() map[types.SiacoinOutputID]bool {
+	out := map[types.SiacoinOutputID]bool{}
+	els, _ := l.HostWallet.SpendableOutputs()
+	for _, el := range els {
+		out[el.ID] = true
+	}
+	return out
+}
+
+// PoolIDs returns the ids of the v2 transactions in the host's pool.
+func (l *Lab) PoolIDs() map[types.TransactionID]bool {
+	out := map[types.TransactionID]bool{}
+	for _, txn := range l.CM.V2PoolTransactions() {
+		out[txn.ID()] = true
+	}
+	return out
+}
+
 // Quiesce waits for the handler-quiescence barrier.
 func (l *Lab) Quiesce() error { return l.Mux.Quiesce(Watchdog) }
 
